@@ -402,6 +402,8 @@ pub fn run_program_on<W: Write>(
                     Some(_) => Box::new(Cursor::new(p.bytes(i, l, s))),
                     None => Box::new(content::GenReader { file: i, pos: l, end: l + s as u64, e: p.entropy }),
                 };
+                // every second operation hands its data over through a source returning at most 3 bytes per read
+                let src: Box<dyn Read> = if k % 2 == 1 { Box::new(CapRead { inner: src, cap: 3 }) } else { src };
                 if p.stream_writer {
                     let data = p.bytes(i, l, s);
                     let mut sw = mla::helpers::StreamWriter::new(&mut w, ids[&i]);
@@ -444,8 +446,17 @@ pub fn run_program_on<W: Write>(
 /// Run a program into memory; returns archive bytes and flush lengths.
 pub fn build(p: &Program, cfg: &Cfg) -> Result<(Vec<u8>, Vec<usize>), String> {
     if !p.ops.contains(&Op::Flush) {
-        // plain Vec destination, recovered with ArchiveWriter::into_raw()
-        return build_into_raw(p, cfg).map(|b| (b, Vec::new()));
+        match p.ops.len() % 3 {
+            // plain Vec destination, recovered with ArchiveWriter::into_raw()
+            0 => return build_into_raw(p, cfg).map(|b| (b, Vec::new())),
+            // a destination that accepts at most 5 bytes per write call
+            1 => {
+                let sink = SharedSink::new();
+                run_program_on(p, cfg, ShortSink { inner: sink.clone(), cap: 5 }, &|| 0, true)?;
+                return Ok((sink.bytes(), Vec::new()));
+            }
+            _ => {}
+        }
     }
     let sink = SharedSink::new();
     let s2 = sink.clone();
@@ -478,7 +489,11 @@ pub fn build_into_raw(p: &Program, cfg: &Cfg) -> Result<Vec<u8>, String> {
                         sw.write_all(piece).map_err(|e| format!("op {k} {} (StreamWriter): {e:?}", o.short()))?;
                     }
                 } else {
-                    w.append_file_content(ids[&i], s as u64, &data[..]).map_err(|e| format!("op {k} {}: {e:?}", o.short()))?;
+                    if k % 2 == 1 {
+                        w.append_file_content(ids[&i], s as u64, CapRead { inner: &data[..], cap: 3 }).map_err(|e| format!("op {k} {}: {e:?}", o.short()))?;
+                    } else {
+                        w.append_file_content(ids[&i], s as u64, &data[..]).map_err(|e| format!("op {k} {}: {e:?}", o.short()))?;
+                    }
                 }
                 lens.insert(i, l + s as u64);
             }
@@ -568,7 +583,46 @@ pub fn read_all_from<R: Read + io::Seek>(
 }
 
 pub fn read_all(bytes: &[u8], key_indices: &[usize]) -> Result<BTreeMap<String, ReadFile>, String> {
+    // one archive in three is read from a source that returns at most 7 bytes per read call, with 5-byte reads
+    if bytes.len() % 3 == 2 {
+        return read_all_from(CapRead { inner: Cursor::new(bytes), cap: 7 }, key_indices, 5);
+    }
     read_all_from(Cursor::new(bytes), key_indices, 4096)
+}
+
+/// A reader (seekable if the inner one is) that returns at most `cap` bytes per read call.
+pub struct CapRead<R> {
+    pub inner: R,
+    pub cap: usize,
+}
+
+impl<R: Read> Read for CapRead<R> {
+    fn read(&mut self, buf: &mut [u8]) -> io::Result<usize> {
+        let n = buf.len().min(self.cap.max(1));
+        self.inner.read(&mut buf[..n])
+    }
+}
+
+impl<R: io::Seek> io::Seek for CapRead<R> {
+    fn seek(&mut self, p: io::SeekFrom) -> io::Result<u64> {
+        self.inner.seek(p)
+    }
+}
+
+/// A destination that accepts at most `cap` bytes per write call.
+pub struct ShortSink<W> {
+    pub inner: W,
+    pub cap: usize,
+}
+
+impl<W: Write> Write for ShortSink<W> {
+    fn write(&mut self, buf: &[u8]) -> io::Result<usize> {
+        let n = buf.len().min(self.cap.max(1));
+        self.inner.write(&buf[..n])
+    }
+    fn flush(&mut self) -> io::Result<()> {
+        self.inner.flush()
+    }
 }
 
 pub fn short_name(n: &str) -> String {
